@@ -1,0 +1,5 @@
+//go:build !verif
+
+package cache
+
+func verifPoint(point, name string) {}
